@@ -559,6 +559,18 @@ impl PortAllocator {
     }
 }
 
+#[cfg(feature = "verif-hooks")]
+impl SocketTable {
+    /// (socket entries, binding-index entries, connection-index entries)
+    pub(crate) fn verif_counts(&self) -> (usize, usize, usize) {
+        (
+            self.sockets.len(),
+            self.bindings.values().map(Vec::len).sum(),
+            self.connections.len(),
+        )
+    }
+}
+
 #[cfg(test)]
 mod tests {
     use super::*;
@@ -600,17 +612,5 @@ mod tests {
         t.insert_binding(key.clone(), a);
         t.insert_binding(key.clone(), b);
         assert_eq!(t.find_by_bind(&key), &[a, b]);
-    }
-}
-
-#[cfg(feature = "verif-hooks")]
-impl SocketTable {
-    /// (socket entries, binding-index entries, connection-index entries)
-    pub(crate) fn verif_counts(&self) -> (usize, usize, usize) {
-        (
-            self.sockets.len(),
-            self.bindings.values().map(Vec::len).sum(),
-            self.connections.len(),
-        )
     }
 }
